@@ -21,7 +21,7 @@ claimed = {
          "All 120+ panic obligations of the flush path are discharged for every configuration in the quantifier (|p| <= 100 as lemma L1, histogram limit >= 0, persisted idle series via 'len >= 0 unless guarded'); preconditions such as 'bucket map non-empty' are proved at every call site.",
          "third-party encoders trusted; nil dereferences not enumerated; numerical results not decided; lemma L11 (+Inf bucket present and last) is a stated data-structure lemma."),
  'C05': ("type-reachability (no []byte/unsafe reachable from outputs) + ordering/dominance on the parser loop + value provenance of the tag buffer + constructor copy rule",
-         "The no-aliasing clause is decided for every input by types (no reachable type can hold a byte buffer, no unsafe); tag buffers never alias earlier lines' tags; New* constructors copy tags; the datagram buffer is released after parsing; one parse per line with bad-line accounting; timestamps/sources/host-tag handling; equal-timestamp gauge lines resolve to the later line.",
+         "The no-aliasing clause is decided for every input by types (no reachable type can hold a byte buffer, no unsafe); tag buffers never alias earlier lines' tags; New* constructors copy tags; the datagram buffer is released after parsing; one parse per line with bad-line accounting; timestamps/sources/host-tag handling; equal-timestamp gauge lines resolve to the later line; no line is parsed after the last newline of a datagram.",
          "'datagram = concatenation of its lines' as an equation is not decided; go/types."),
  'C14': ("table extraction from composite literals and switches on both sides + inverse/bijection comparison + protobuf struct-tag coverage + guard dominance in the HTTP handlers + pooled-buffer escape rule",
          "Encoder and decoder field tables are mutual inverses for the four metric types and events; every protobuf field is written and read; priority/alert switches are inverse bijections on all declared constants; each compressor's Content-Encoding selects the matching decompressor; dispatch is dominated by successful read/decompress/unmarshal and every handler path writes exactly one status; no request body aliases a pooled buffer; the request body is read to its end; encoded series own their slices and the series of one name share that name's entry.",
